@@ -78,10 +78,14 @@ def ob_union(ka, kb, timeout):
               canaries=[{"target": "praatio.data_classes.interval_tier:IntervalTier.insertEntry", "find": "max([tmpInterval.end for tmpInterval in matchList])", "replace": "matchList[-1].end"}] if (ka, kb) == (2, 1) else [])
 
 
-def ob_diff_inter(ka, kb, timeout):
+def ob_diff_inter(ka, kb, timeout, scale=None):
+    """scale: None = arbitrary reals (2^-16 apart); a number = timestamps are small integers
+    times `scale` (an exact dyadic grid, e.g. 2^-40: every length is far below 1e-8)"""
     names = ["hi"] + _ts(ka, "a") + _ts(kb, "b")
 
     def body(hi, *ts):
+        if scale is not None:
+            hi, ts = hi * scale, [t * scale for t in ts]
         ea, eb, ta, tb = _mk(ka, kb, hi, ts)
         sa, sb = snap_tier(ta), snap_tier(tb)
         d = ta.difference(tb)
@@ -122,6 +126,12 @@ def ob_diff_inter(ka, kb, timeout):
             return "difference: entries"
         return True
 
+    if scale is not None:
+        def pre_grid(hi, *ts):
+            A, B = ts[: 2 * ka], ts[2 * ka:]
+            return bool(ivs_wf_pre(0, hi, *A) & ivs_wf_pre(0, hi, *B)) and 0 <= hi <= 9
+
+        return Ob("diff-inter-%dx%d-grid" % (ka, kb), I(*names), body, pre_grid, fmode="real", timeout=timeout, funcs=FUNCS[1:3] + [FUNCS[4]], bounds="A %d intervals, B %d intervals; timestamps k * %r, k integer in 0..9 (all lengths far below 1e-8)" % (ka, kb, scale))
     return Ob("diff-inter-%dx%d" % (ka, kb), F(*names), body, _pre(ka, kb), fmode="real", timeout=timeout, funcs=FUNCS[1:3] + [FUNCS[4]], bounds="A %d intervals, B %d intervals" % (ka, kb))
 
 
@@ -324,7 +334,10 @@ def obligations(tier):
         obs.append(ob_diff_spans(1, 300))
         obs.append(ob_union(0, 1, 30))
         obs.append(ob_diff_inter(1, 0, 30))
+        obs.append(ob_diff_inter(1, 1, 200, scale=2.0 ** -40))
     else:
+        obs.append(ob_diff_inter(1, 1, 600, scale=2.0 ** -40))
+        obs.append(ob_diff_inter(2, 1, 900, scale=2.0 ** -40))
         for ka, kb in ((0, 0), (0, 1), (1, 0), (1, 1), (2, 1), (1, 2), (2, 2), (3, 1), (1, 3)):
             t = 3000 if ka + kb >= 4 else 900
             obs.append(ob_union(ka, kb, t))
